@@ -484,96 +484,23 @@ theorem lexKL_nil (f : Nat) (prev : String) : lexKL (f + 1) [] prev = [.tok "EOF
 
 /-! ### gaps -/
 
-theorem commentFollows_blanks : ∀ (ws rest : Chars), allBlank ws →
-    commentFollows (ws ++ rest) = commentFollows rest
-  | [], _, _ => rfl
-  | c :: ws, rest, h => by
-    have hc : isBlank c = true := h c (by simp)
-    simp only [List.cons_append, commentFollows, hc, ↓reduceIte]
-    exact commentFollows_blanks ws rest (fun d hd => h d (by simp [hd]))
-
-theorem first_not_comment : ∀ c, c < 128 → (isLetter c || c == 95 || isDigit c) = true →
-    isBlank c = false ∧ (c == 35) = false ∧ (c == 47) = false := by decide
-
-theorem commentFollows_of_first (c : Nat) (cs : Chars) (hc : c < 128)
-    (h : (isLetter c || c == 95 || isDigit c) = true) : commentFollows (c :: cs) = false := by
-  obtain ⟨h1, h2, h3⟩ := first_not_comment c hc h
-  simp [commentFollows, h1, h2, h3]
-
-/-- the spelling of a well-formed token (followed by a delimiter) does not begin a comment -/
-theorem commentFollows_spell (t : Token) (h : tokOK t = true) (rest : Chars) (hd : Delim rest) :
-    commentFollows (spell t ++ rest) = false := by
-  rcases tokOK_cases h with ⟨hk, hok⟩ | ⟨hk, hok⟩ | hk | ⟨hf, ht⟩
-  · obtain ⟨k, lit⟩ := t
-    simp only at hk hok; subst hk
-    show commentFollows (codes lit ++ rest) = false
-    unfold identOK at hok
-    cases hc : codes lit with
-    | nil => rw [hc] at hok; cases hok
-    | cons c cs =>
-      rw [hc] at hok
-      simp only [Bool.and_eq_true] at hok
-      have h1 := hok.1.1
-      have hlt : c < 128 := by
-        simp only [isLetter, Bool.or_eq_true, Bool.and_eq_true, decide_eq_true_eq, beq_iff_eq] at h1
-        omega
-      exact commentFollows_of_first c _ hlt (by simp [h1])
-  · obtain ⟨k, lit⟩ := t
-    simp only at hk hok; subst hk
-    show commentFollows (codes lit ++ rest) = false
-    unfold intOK at hok
-    cases hc : codes lit with
-    | nil => rw [hc] at hok; cases hok
-    | cons c cs =>
-      rw [hc] at hok
-      have h1 : isDigit c = true := by
-        cases cs with
-        | nil => simpa using hok
-        | cons d ds => simp only [Bool.and_eq_true] at hok; exact hok.1.1
-      exact commentFollows_of_first c _ (isDigit_lt h1) (by simp [h1])
-  · obtain ⟨k, lit⟩ := t
-    simp only at hk; subst hk
-    rfl
-  · rw [ht, spell_other _ _ (by intro e; rw [tk_kind] at e; rw [e] at hf; revert hf; decide)]
-    show commentFollows (codes t.kind.text ++ rest) = false
-    rcases hd with rfl | ⟨b, r, rfl, hb⟩
-    · revert hf; cases t.kind <;> decide
-    · rcases isBlank_cases hb with rfl | rfl
-      · revert hf
-        cases t.kind <;> first | (intro hf; exact absurd hf (by decide)) | (intro _; rfl)
-      · revert hf
-        cases t.kind <;> first | (intro hf; exact absurd hf (by decide)) | (intro _; rfl)
-
 theorem allBlank_of_all {ws : Chars} (h : ws.all isBlank = true) : allBlank ws :=
   fun c hc => (List.all_eq_true.1 h) c hc
 
-/-- a well-formed gap in front of a text that does not go on with a comment is invisible -/
-theorem gap_invisible (g : Gap) (hg : g.ok = true) (f : Nat) (more : Chars) (prev : String)
-    (hc : commentFollows more = false) : lexKL f (g.text ++ more) prev = lexKL f more prev := by
-  cases g with
-  | blanks ws =>
-    simp only [Gap.ok, Bool.and_eq_true] at hg
-    exact lex_blanks_ignored f ws more prev (allBlank_of_all hg.2)
-  | comment ws₁ body ws₂ =>
-    simp only [Gap.ok, Bool.and_eq_true] at hg
-    obtain ⟨⟨⟨_, h1⟩, hb⟩, h2⟩ := hg
-    have e : (Gap.comment ws₁ body ws₂).text ++ more
-        = ws₁ ++ ([47, 42] ++ body ++ [42, 47] ++ (ws₂ ++ more)) := by
-      simp [Gap.text]
-    rw [e, lex_blanks_ignored f ws₁ _ prev (allBlank_of_all h1),
-      lex_block_comment_invariant_partial f body (ws₂ ++ more) prev hb
-        (by rw [commentFollows_blanks ws₂ more (allBlank_of_all h2)]; exact hc),
-      lex_blanks_ignored f ws₂ more prev (allBlank_of_all h2)]
+/-- a well-formed gap is invisible, whatever follows it -/
+theorem gap_invisible (g : Gap) (hg : g.ok = true) (f : Nat) (more : Chars) (prev : String) :
+    lexKL f (g.text ++ more) prev = lexKL f more prev := by
+  simp only [Gap.ok, Bool.and_eq_true] at hg
+  obtain ⟨⟨_, h1⟩, hc⟩ := hg
+  have e : g.text ++ more = g.lead ++ (commentRun g.comments ++ more) := by
+    simp [Gap.text]
+  rw [e, lex_blanks_ignored f g.lead _ prev (allBlank_of_all h1),
+    lex_comment_run_invariant f g.comments more prev hc]
 
 theorem gap_delim (g : Gap) (hg : g.ok = true) (more : Chars) : Delim (g.text ++ more) := by
-  cases g with
-  | blanks ws =>
-    simp only [Gap.ok, Bool.and_eq_true, Bool.not_eq_true', List.isEmpty_eq_false_iff] at hg
-    exact delim_append more hg.1 (allBlank_of_all hg.2)
-  | comment ws₁ body ws₂ =>
-    simp only [Gap.ok, Bool.and_eq_true, Bool.not_eq_true', List.isEmpty_eq_false_iff] at hg
-    simp only [Gap.text, List.append_assoc]
-    exact delim_append _ hg.1.1.1 (allBlank_of_all hg.1.1.2)
+  simp only [Gap.ok, Bool.and_eq_true, Bool.not_eq_true', List.isEmpty_eq_false_iff] at hg
+  simp only [Gap.text, List.append_assoc]
+  exact delim_append _ hg.1.1 (allBlank_of_all hg.1.2)
 
 /-- a non-empty spelled list is the first spelling followed by a delimiter -/
 theorem spellWith_cons (t : Token) (ts : List Token) (gs : List Gap) (hg : ∀ g ∈ gs, g.ok = true) :
@@ -616,8 +543,7 @@ theorem lexKL_spellWith : ∀ (ts : List Token) (gs : List Gap) (f : Nat) (prev 
       have ih := lexKL_spellWith (t' :: ts) gs f' t.kind.typ hts hgs (by simp at hf ⊢; omega)
       show lexKL (f' + 1) (spell t ++ (g.text ++ spellWith (t' :: ts) gs)) prev = _
       rw [lexKL_spell_step t (ht t (by simp)) _ (gap_delim g (hg g (by simp)) _) f' prev]
-      rw [gap_invisible g (hg g (by simp)) f' _ _
-        (by rw [hr]; exact commentFollows_spell t' (hts t' (by simp)) r hdr), ih]
+      rw [gap_invisible g (hg g (by simp)) f' _ _, ih]
       rfl
 
 theorem length_le_spellWith : ∀ (ts : List Token) (gs : List Gap), (∀ t ∈ ts, tokOK t = true) →
